@@ -123,9 +123,15 @@ def httpDirStartSegs (nameOpt : Option Str) (topper : List Seg) : List Seg :=
 
 /-- `HTMLURLHandler.write`: the redirect page (the URL is escaped in all four places) -/
 def urlRedirectSegs (url : Str) : List Seg :=
-  [.lit (lit "<HTML><HEAD>\n<META HTTP-EQUIV=\"refresh\" content=\"5;URL="), .esc url,
-   .lit (lit "\"></HEAD><BODY>\n<A HREF=\""), .esc url, .lit (lit "\">here</A> <P><A HREF=\""),
-   .esc url, .lit (lit "\">"), .esc url, .lit (lit "</A><P></BODY></HTML>")]
+  [.lit (lit "<HTML><HEAD>\n<META HTTP-EQUIV=\"refresh\" content=\"5;URL="),
+   .esc url,
+   .lit (lit "\"></HEAD><BODY>\n\n        You are following a link from gopher to a website.  You will be\n        automatically taken to the web site shortly.  If you do not get\n        sent there, please click <A HREF=\""),
+   .esc url,
+   .lit (lit "\">here</A> to go to the web site.\n        <P>\n        The URL linked is:\n        <P><A HREF=\""),
+   .esc url,
+   .lit (lit "\">"),
+   .esc url,
+   .lit (lit "</A><P>\n        Thanks for using gopher!\n        <P>\n        Document generated by pygopherd handlers.url.HTMLURLHandler\n        </BODY></HTML>")]
 
 /-! ## WAP / WML -/
 
